@@ -20,6 +20,8 @@ func (g GoSite) Key() string {
 	c := g.Callee
 	if g.Lit != nil {
 		c = g.Lit.Name
+	} else if g.Target != nil && g.Target.LitAlias != "" {
+		c = g.Target.LitAlias
 	}
 	return g.F.Name + " -> " + c
 }
